@@ -173,7 +173,12 @@ def check_encoders(out, facts, S):
                 if not okm:
                     why.append('value %d (mode %d) is not written as ((x << 2) | %d) in %s: %s' % (x, mode, mode, {0: 'one byte', 1: 'a u16', 2: 'a u32'}[mode], ' · '.join(sym.tstr(e) for e in outs)[:120]))
             elif prim == 'u32':
-                okm = [e[0] for e in outs] == ['byte', 'enc'] and sym.vstr(outs[0][1]) == '3:u8' and outs[1][1] == 'u32' and strip(outs[1][2])[0] == 'field'
+                okm = [e[0] for e in outs] == ['byte', 'enc'] and outs[1][1] == 'u32' and strip(outs[1][2])[0] == 'field'
+                if okm:
+                    try:
+                        okm = eval_expr(outs[0][1], leaf) == 3      # a literal, a named constant, an expression: its value
+                    except ArithPanic:
+                        okm = False
                 if not okm:
                     why.append('value %d: big-integer mode of u32 is not byte 0b11 followed by the 4 LE bytes' % x)
             else:
@@ -432,8 +437,16 @@ def check_prefix_input(out, facts):
     g = facts.impl_method('Input', "compact::PrefixInput<'a, T>", 'remaining_len')
     if g:
         t, v, ev = input_method_term(facts, g)
-        ok = sym.vstr(v) == 'Ok(if let Some = remaining#%s {Some(saturating_add(remaining#%s.Some.0, count(iter(self.prefix))))} else {Option::None{}})' % (
-            [e for e in events(t) if e[0] == 'REMLEN'][0][1], [e for e in events(t) if e[0] == 'REMLEN'][0][1]) if [e for e in events(t) if e[0] == 'REMLEN'] else False
+        rem = [e for e in events(t) if e[0] == 'REMLEN']
+        ok = False
+        if len(rem) == 1:
+            # meaning, not spelling: Some(n) of the wrapped input becomes Some(n saturating+ pending prefix bytes), None stays
+            # None; the remaining length is used nowhere else
+            rv = sym.vstr(v)
+            summed = 'saturating_add(remaining#%s.Some.0, count(iter(self.prefix)))' % rem[0][1]
+            uses = rv.count('remaining#%s' % rem[0][1])
+            tests = rv.count('= remaining#%s' % rem[0][1]) + rv.count('match remaining#%s' % rem[0][1])
+            ok = rv.count(summed) == 1 and ('Some(' + summed + ')') in rv and 'None' in rv and uses == 1 + tests and rv.startswith(('Ok(', 'match', 'if'))
         out.ob('R04.5', 'PrefixInput::remaining_len [%s]' % cfg, ok, 'remaining_len does not add the pending prefix byte: ' + sym.vstr(v), g['loc'])
 
 
